@@ -172,9 +172,9 @@ func C14(tier string) int {
 		Drivers:     []MCDriver{{Name: "backup", Params: []string{"array", "hashmap"}, Quick: 2, Thorough: 3}},
 		Rule:        "(b) stateless depth-first exploration of every schedule with at most the stated number of preemptions of a reader thread running Tx.WriteTo into a writer whose every Write call is a scheduling point (database of more than 32 KiB, i.e. several chunks) against a writer thread committing two transactions that free and reuse pages; scheduling points at every lock operation and I/O call of the real code. (a) explicit-state BFS over event orders (c14-life, reported under hx_*): at every state, through every open reader of any age, WriteTo (into a buffer) and CopyFile are run after 0..k further commits. Oracle in both: bytes produced = returned n = Tx.Size(); the copy decodes with both metas valid and meta 0 winning, equals the reader's version, is accounted for page by page, passes Tx.Check, opens and accepts a commit",
 		Assumptions: []string{"the copy reads the file through the descriptor; pages of the reader's version are protected by the reader registration (C02/C06)"},
-		Quick:       60 * time.Second, Thorough: 20 * time.Minute,
+		Quick:       60 * time.Second, Thorough: 10 * time.Minute,
 		Extra: func(tier string, cov map[string]interface{}) []string {
-			v := subHX("C14", []string{"c14-life", "c14-fault"}, tier, cov, 60*time.Second, 15*time.Minute)
+			v := subHX("C14", []string{"c14-life", "c14-fault"}, tier, cov, 60*time.Second, 8*time.Minute)
 			return append(v, replacedPath(tier, cov)...)
 		},
 	}, tier)
